@@ -661,6 +661,20 @@ async fn exec(cx: &mut ClientCx, op: &Op) -> Res {
             Some(f) => Res::Joined(f.await.map(|p| p.join_val())),
             None => Res::Skipped,
         },
+        Op::JoinPoll => match cx.joins.pop_front() {
+            Some(mut f) => {
+                // one poll with the client's own waker; a pending future goes back to the front
+                let r = std::future::poll_fn(|c| Poll::Ready(f.as_mut().poll(c))).await;
+                match r {
+                    Poll::Ready(v) => Res::Joined(v.map(|p| p.join_val())),
+                    Poll::Pending => {
+                        cx.joins.push_front(f);
+                        Res::Handle(false)
+                    }
+                }
+            }
+            None => Res::Skipped,
+        },
         Op::JoinDiscard => match cx.joins.pop_front() {
             Some(f) => {
                 drop(f);
